@@ -744,6 +744,12 @@ fn conversation(cx: &mut Lx, work: &std::path::Path, _id: usize, accept: bool, r
 		f.extend_from_slice(&att);
 		// ready, dl:0:n, tmpfile, one dl per chunk of <= 48000 bytes, the hand-over of the file
 		let chunks = if att.is_empty() { 1 } else { (att.len() + 47_999) / 48_000 };
+		if accept {
+			// the chain refuses the archive (`txhashset_write` fails): a chain error, swallowed - same calls, nothing
+			// answered, the connection stays (model: consumeGlueF … "txhashset_write" = chainErr)
+			*n.ad.fail.lock().unwrap() = Some("txhashset_write".to_string());
+			cx.stat("glue: txhashset_write fails at the end of an archive");
+		}
 		n.recv(cx, &format!("archive {} {} {}", hx(arch.hash), att.len(), checksum(&att)), &f, 3 + chunks + 1, false, false);
 		// a second archive: the request has been used up
 		let mut f = frame_of(Type::TxHashSetArchive, &arch, pv);
